@@ -260,6 +260,48 @@ def run_plugin_case(item):
         shutil.rmtree(d, ignore_errors=True)
 
 
+# ----------------------------------------------------------------------------- one file collected under two paths (F-98)
+LINKED = [("from inline_snapshot import snapshot\n\ndef test_a():\n    x = 1\n    assert x * 2 == snapshot(1000000), \"doubled\"\n", "fix"),
+          ("from inline_snapshot import snapshot\n\ndef test_a():\n    assert 24690 == snapshot()  # c\n\n\ndef test_b():\n    assert [1, 2] == snapshot([1, 5, 2]), 'msg'\n", "create,fix"),
+          ("from inline_snapshot import snapshot\n\ndef test_a():\n    assert 5 <= snapshot(900)\n    assert 'k' in snapshot(['k', 'unused'])\n", "trim")]
+
+
+def run_linked(item):
+    """test_two.py is a symbolic link to test_one.py and both are collected: the file is reached through two paths in one session"""
+    src, flags = item
+    d = driver.scratch_dir()
+    try:
+        driver.write_project(d, {"test_one.py": src, "pyproject.toml": "[tool.inline-snapshot]\n"})
+        (d / "test_two.py").symlink_to("test_one.py")
+        r = driver.run_pytest(d, [f"--inline-snapshot={flags}"])
+        after = (d / "test_one.py").read_bytes()
+        r2 = driver.run_pytest(d, [])
+        return {"before": src.encode(), "after": after, "rc": r["rc"], "rc2": r2["rc"], "link": (d / "test_two.py").is_symlink(), "tail": (r["stdout"] + r["stderr"])[-900:]}
+    finally:
+        shutil.rmtree(d, ignore_errors=True)
+
+
+def linked_files(ctx: Ctx, only=None):
+    items = [it for it in LINKED if only in (None, it[0])]
+    for item, o in zip(items, tmap(run_linked, items)):
+        ctx.count(("linked", item), True)
+        why = None
+        if o["rc"] not in (0, 1):
+            why = f"the session ended with exit status {o['rc']}"
+        else:
+            why = judge(o["before"], o["after"], False)
+            if why is None and o["after"] == o["before"]:
+                why = "nothing was written"
+            if why is None and o["rc2"] != 0:
+                why = f"the next session (no flags) exits with {o['rc2']}"
+            if why is None and not o["link"]:
+                why = "the symbolic link was replaced by a file"
+        if why:
+            ctx.report(f"C03 oracle (a test file collected under two paths: test_two.py -> test_one.py, flags {item[1]}): {why}",
+                       {"kind": "linked", "source": item[0], "flag": item[1], "after": o["after"].decode("utf-8", "replace"), "output": o["tail"]}, tag="F-98")
+    ctx.coverage["oracle"]["linked_files"] = len(items)
+
+
 def run(ctx: Ctx):
     ctx.coverage["rule"] = (
         "test modules with 1-5 snapshot sites (==, <=, >=, in, [k]; assert / helper argument / module level / loop) over the simple and the rich value universe, "
@@ -335,6 +377,7 @@ def run(ctx: Ctx):
     # the only edit allowed outside snapshot() calls: the inserted import line (Model/Imports.v)
     from .. import importscorr as ic
     ic.check_part(ctx, 300 if not ctx.thorough else 3000, "C03")
+    linked_files(ctx)
 
 
 def _plugin_tag(src, o):
@@ -352,6 +395,10 @@ def replay(ctx: Ctx, data):
     if case.get("kind") == "imports":
         from .. import importscorr as ic
         return ic.replay_case(case)
+    if case.get("kind") == "linked":
+        o = run_linked((case["source"], case["flag"]))
+        print(o["after"].decode("utf-8", "replace"), o["tail"])
+        return o["rc"] in (0, 1) and judge(o["before"], o["after"], False) is None and o["after"] != o["before"] and o["rc2"] == 0
     if case.get("kind") == "plugin":
         o = run_plugin_case((case["source"], case["flag"], False))
         print(o["after"].decode("utf-8", "replace"), o["tail"])
